@@ -66,7 +66,7 @@ pub trait RollingValidCmp<T: IsNone>: Vec1View<T> {
                             _ => {},
                         }
                     }
-                    let out = if n >= min_periods {
+                    let out = if n >= min_periods && min.is_some() {
                         min_idx
                             .map(|min_idx| (min_idx - start.unwrap_or(0) + 1).f64())
                             .unwrap_or(f64::NAN)
@@ -218,7 +218,7 @@ pub trait RollingValidCmp<T: IsNone>: Vec1View<T> {
                             _ => {},
                         }
                     }
-                    let out = if n >= min_periods {
+                    let out = if n >= min_periods && max.is_some() {
                         max_idx
                             .map(|max_idx| (max_idx - start.unwrap_or(0) + 1).f64())
                             .unwrap_or(f64::NAN)
